@@ -5,6 +5,7 @@ package main
 import (
 	"encoding/json"
 	"fmt"
+	"github.com/ochinchina/sipproxy/vrt/vnet"
 	"strings"
 )
 
@@ -376,6 +377,128 @@ func c06Fresh(c *Ctx, n int) {
 	c.Res.Nontrivial += int64(len(seen))
 }
 
+// c06ManyPeers: a long-lived proxy that has seen n distinct peers; a next hop first seen after
+// every block of 1000 must still be learned: requests relayed to it get the Via and the Record-Route.
+func c06ManyPeers(c *Ctx, n int) {
+	cfg := RCfg{Name: "svc.example.com", Listens: []RListen{{Addr: "127.0.0.1", UDP: 5060, Backends: []string{"udp://127.0.1.1:7000"}}}}
+	w := StartRelayWorld(SimOpts{}, cfg)
+	defer w.Close()
+	probe := func(k int) (string, string) {
+		hop := fmt.Sprintf("10.200.%d.%d", k/250, k%250+1)
+		pm := MsgSpec{Method: "OPTIONS", RURI: "sip:x@foreign.example.net", Vias: []string{"SIP/2.0/UDP " + hop + ":5070;branch=z9hG4bKpre"}, From: "<sip:nh@nh.example.net>;tag=p", To: "<sip:x@nomatch.example.org>", CallID: fmt.Sprintf("pre%d", k), CSeq: "1 OPTIONS"}.Build()
+		w.SendUDP(hop+":5070", "127.0.0.1:5060", pm.Render())
+		w.Observe()
+		m := MsgSpec{Method: "OPTIONS", RURI: "sip:bob@foreign.example.net", Vias: []string{fmt.Sprintf("SIP/2.0/UDP 127.0.0.9:5060;branch=z9hG4bKmp%d", k)}, Routes: []string{"<sip:" + hop + ":5070;lr>"}, RRs: []string{"<sip:10.8.0.1;lr>"},
+			From: "<sip:alice@ua.example.net>;tag=f1", To: "<sip:bob@nomatch.example.org>", CallID: fmt.Sprintf("mp%d", k), CSeq: "1 OPTIONS"}.Build()
+		w.SendUDP("127.0.0.9:5060", "127.0.0.1:5060", m.Render())
+		obs := w.Observe()
+		if len(obs.Pkts) != 1 {
+			return "not-relayed", fmt.Sprintf("the request routed to the new next hop %s was relayed %d times (%s)", hop, len(obs.Pkts), obs.Summary())
+		}
+		out, err := ReadWire(obs.Pkts[0].Data)
+		if err != nil {
+			return "unreadable-emission", err.Error()
+		}
+		vs, _ := out.ViaStack()
+		rr, _ := out.NameAddrList("record-route")
+		if len(vs) != 2 || vs[0].Host != "127.0.0.1" || vs[0].Port != "5060" {
+			return "via-not-exactly-one-inserted", fmt.Sprintf("next hop %s sent a request through the UDP listener and is then named in a Route: the relayed request carries Via %q (expected the listener's Via on top of the sender's)", hop, viaStrs(vs))
+		}
+		if len(rr) != 2 || rr[0].URI.Host != "127.0.0.1" {
+			return "record-route-not-exactly-one-added", fmt.Sprintf("next hop %s: the relayed request carries Record-Route %s (expected <sip:127.0.0.1:5060;lr> ahead of the existing entry)", hop, naList(rr))
+		}
+		return "", ""
+	}
+	for i := 0; i <= n; i++ {
+		if c.Expired() {
+			return
+		}
+		if i%1000 == 0 {
+			c.Res.Evaluations++
+			c.Res.Nontrivial++
+			if cl, d := probe(i / 1000); cl != "" {
+				c.Violate(cl+"|many-peers", cl, fmt.Sprintf("after requests from %d distinct peers: %s", i, d), map[string]int{"many_peers": i})
+				return
+			}
+		}
+		src := fmt.Sprintf("10.%d.%d.%d:5060", 1+i/62500, i/250%250, i%250+1)
+		m := MsgSpec{Method: "OPTIONS", RURI: "sip:bob@svc.example.com", Vias: []string{fmt.Sprintf("SIP/2.0/UDP %s;branch=z9hG4bKp%d", src, i)},
+			From: "<sip:alice@ua.example.net>;tag=f1", To: "<sip:bob@svc.example.com>", CallID: fmt.Sprintf("peer%d", i), CSeq: "1 OPTIONS"}.Build()
+		w.SendUDP(src, "127.0.0.1:5060", m.Render())
+		if i%64 == 0 {
+			w.Observe()
+		}
+		c.Res.Executions++
+	}
+}
+
+// c06PinnedDead: an in-dialog request whose pinned TCP backend has gone away (connection reset,
+// further connections refused). Whatever the proxy does with it - drop it or hand it to another
+// backend - a request that reaches a backend carries exactly one new Via and one new Record-Route.
+func c06PinnedDead(c *Ctx, variant int) {
+	must, withRR := variant&1 != 0, variant&2 != 0
+	cfg := RCfg{Name: "svc.example.com", Listens: []RListen{{Addr: "127.0.0.1", UDP: 5060, TCP: 5062, MustRR: must, Backends: []string{"tcp://127.0.1.1:7000", "tcp://127.0.1.2:7000", "udp://127.0.1.3:7000"}}}}
+	w := StartRelayWorld(SimOpts{}, cfg)
+	defer w.Close()
+	name := fmt.Sprintf("pinned-backend-gone(must-record-route=%v, request carries Record-Route=%v)", must, withRR)
+	fail := func(cl, d string) {
+		c.Violate(cl+"|pinned-backend-gone", cl, name+": "+d, map[string]int{"pinned_dead": variant + 1})
+	}
+	c.Res.Evaluations++
+	c.Res.Executions++
+	inv := MsgSpec{Method: "INVITE", RURI: "sip:bob@svc.example.com", Vias: []string{"SIP/2.0/UDP 127.0.0.9:5060;branch=z9hG4bKpd1"}, From: "<sip:alice@ua.example.net>;tag=f1", To: "<sip:bob@svc.example.com>", CallID: "pd", CSeq: "1 INVITE"}.Build()
+	w.SendUDP("127.0.0.9:5060", "127.0.0.1:5060", inv.Render())
+	obs := w.Observe()
+	if len(obs.Pkts) != 1 || obs.Pkts[0].Proto != "tcp" {
+		return // the first dispatch did not go to a TCP backend: scenario not constructible
+	}
+	be := obs.Pkts[0].To
+	rel, _ := ReadWire(obs.Pkts[0].Data)
+	acc := w.acc[be]
+	if rel == nil || len(acc) == 0 {
+		return
+	}
+	w.SendTCP(acc[len(acc)-1], ResponseTo(rel, 200, "t1").Render())
+	w.Observe()
+	// the backend goes away
+	acc[len(acc)-1].Reset()
+	vnet.SetDialRule(be, -1, 0)
+	w.S.Run()
+	w.Observe()
+	var rrs []string
+	if withRR {
+		rrs = []string{"<sip:10.8.0.1;lr>"}
+	}
+	bye := MsgSpec{Method: "BYE", RURI: "sip:bob@svc.example.com", Vias: []string{"SIP/2.0/UDP 127.0.0.9:5060;branch=z9hG4bKpd2"}, RRs: rrs, From: "<sip:alice@ua.example.net>;tag=f1", To: "<sip:bob@svc.example.com>;tag=t1", CallID: "pd", CSeq: "2 BYE"}.Build()
+	w.SendUDP("127.0.0.9:5060", "127.0.0.1:5060", bye.Render())
+	obs = w.Observe()
+	if vd := w.S.Verdict(); vd != "" {
+		fail("health", vd)
+		return
+	}
+	for _, p := range obs.Pkts {
+		out, err := ReadWire(p.Data)
+		if err != nil {
+			continue // a fragment on a broken connection: C20's territory
+		}
+		c.Res.Nontrivial++
+		vs, _ := out.ViaStack()
+		rr, _ := out.NameAddrList("record-route")
+		if len(vs) != 2 {
+			fail("via-not-exactly-one-inserted", fmt.Sprintf("the BYE handed to %s carries Via %q (expected one new entry above the sender's)", p.To, viaStrs(vs)))
+			return
+		}
+		want := len(rrs)
+		if must || withRR {
+			want++
+		}
+		if len(rr) != want {
+			fail("record-route-not-exactly-one-added", fmt.Sprintf("the BYE handed to %s carries Record-Route %s (expected %d entries)", p.To, naList(rr), want))
+			return
+		}
+	}
+}
+
 func init() {
 	c06Spec = &EnumSpec{Feats: []Feat{
 		{Name: "path", Vals: []string{"backend", "route", "static"}},
@@ -426,7 +549,7 @@ func init() {
 		return true
 	}
 	addCheck(&Check{ID: "C06", Level: "exploration",
-		Rule:   "complete product: relaying path x how the next hop was learned (not / earlier request from it / listed in an earlier Via by address or by name or in a Via line detached from the first Via block / through the TCP listener / through the other listens entry / re-learned) x {fresh, the same listener already relayed a request to that hop before it was learned} x must-record-route x listener set x 0-4 (thorough 0-6) existing Via entries in 4 layouts x 0-3 (thorough 0-4) Record-Route entries in layouts x position of Record-Route among the other headers x From/Max-Forwards order; each on a fresh world with the learning history replayed first; plus a freshness run relaying 20000 requests through one world; non-trivial = the request was relayed",
+		Rule:   "complete product: relaying path x how the next hop was learned (not / earlier request from it / listed in an earlier Via by address or by name or in a Via line detached from the first Via block / through the TCP listener / through the other listens entry / re-learned) x {fresh, the same listener already relayed a request to that hop before it was learned} x must-record-route x listener set x 0-4 (thorough 0-6) existing Via entries in 4 layouts x 0-3 (thorough 0-4) Record-Route entries in layouts x position of Record-Route among the other headers x From/Max-Forwards order; each on a fresh world with the learning history replayed first; plus a freshness run relaying 20000 requests through one world; plus a run with requests from 6000 (thorough 40000) distinct peers in which a next hop first seen after every 1000 peers must still be learned; plus an in-dialog request whose pinned TCP backend has gone away (reset, refusing) under 4 Record-Route settings; non-trivial = the request was relayed",
 		Assume: []string{"two-listener worlds give both entries the same must-record-route setting (the statement does not say whose setting counts)", "next hop named as it was learned (address literal or the same host name): equivalence of names and addresses for learning is not prescribed"},
 		Run: func(c *Ctx) {
 			c06Spec.Run(c)
@@ -434,9 +557,33 @@ func init() {
 				n := 20000
 				c06Fresh(c, n)
 			}
+			if c.Worker == (c.NWorkers-2+c.NWorkers)%c.NWorkers {
+				n := 6000
+				if c.Thorough() {
+					n = 40000
+				}
+				c06ManyPeers(c, n)
+			}
+			for variant := 0; variant < 4; variant++ {
+				if c.Worker == variant%c.NWorkers {
+					c06PinnedDead(c, variant)
+				}
+			}
 		},
 		Replay: func(c *Ctx, raw json.RawMessage) string {
 			var fr map[string]int
+			if json.Unmarshal(raw, &fr) == nil && (fr["many_peers"] > 0 || fr["pinned_dead"] > 0) {
+				cc := &Ctx{Res: newResult(), vmap: map[string]*Violation{}, Deadline: c.Deadline, NWorkers: 1}
+				if fr["many_peers"] > 0 {
+					c06ManyPeers(cc, fr["many_peers"])
+				} else {
+					c06PinnedDead(cc, fr["pinned_dead"]-1)
+				}
+				if len(cc.Res.Violations) > 0 {
+					return cc.Res.Violations[0].Clause
+				}
+				return ""
+			}
 			if json.Unmarshal(raw, &fr) == nil && fr["fresh_run"] > 0 {
 				cc := &Ctx{Res: newResult(), vmap: map[string]*Violation{}, Deadline: c.Deadline, NWorkers: 1}
 				c06Fresh(cc, fr["fresh_run"])
